@@ -259,6 +259,10 @@ class Inventory:
             visit(f)
         return order
 
+    def _diverging(self, f, roots):
+        fn = self.facts.fns.get(f) if f else None
+        return bool(fn) and fn.get("ret") == "!" and fn.get("kind") != "Closure" and self.liftable(f, roots)
+
     def liftable(self, f, roots):
         if f in roots:
             return False
@@ -298,8 +302,15 @@ class Inventory:
             elif t["k"] == "call":
                 name = callee_name(t)
                 cls = classify_call(name)
+                mac = t.get("mac")
+                if cls is None and self._diverging(name, roots):
+                    # a private function that never returns (`-> !`): calling it is the panic, and the condition
+                    # under which it is called is the condition of the panic, exactly as for an inline `panic!`
+                    cls = "panic"
+                    inner = [m for k2, ss in self.done.items() if k2[0] == name for x in ss if x.kind == "panic" for m in (x.mac or [])]
+                    mac = list(mac or []) + (inner or ["panic"])
                 if cls is not None:
-                    s = Site(f, bi, cls, name, t["args"], blk["line"], t.get("mac"), t)
+                    s = Site(f, bi, cls, name, t["args"], blk["line"], mac, t)
                     new.append(s)
                     if feasible:
                         self._call_goals(an, st, bi, s)
@@ -321,6 +332,10 @@ class Inventory:
         # lifting
         lift = self.liftable(f, roots)
         pre = []
+        if self._diverging(f, roots):
+            for s in out:
+                if s.kind == "panic" and s.status != "proven":
+                    s.status, s.how = "proven", "inside a function that never returns: every call of it is a panic site of its caller"
         for s in out:
             if s.status == "proven":
                 continue
@@ -486,6 +501,12 @@ class Inventory:
                                  "Lt": lin_add(lb, la, -1), "Le": lin_add(lin_add(lb, lin_const(1)), la, -1)}.get(op)
                             if g is not None:
                                 s.goals = [g]
+            return
+        if s.kind == "slice-op" and re.search(r"::(chunks|chunks_exact|chunks_mut|chunks_exact_mut|windows)$", s.detail or "") and len(t["args"]) == 2:
+            # these panic exactly when the piece size is 0
+            iv = an.op_iv(st, t["args"][1], "usize")
+            if iv and iv[0] >= 1:
+                s.status, s.how = "proven", "piece size in [%d,%d], never 0" % iv
             return
         if s.kind == "unwrap":
             return self._unwrap_of_local_call(an, st, s)
@@ -681,6 +702,11 @@ class Inventory:
         def is_arg(base):
             return re.match(r"^_(\d+)$", base) and 1 <= int(base[1:]) <= an.b.argc and an.defcount.get(base, 0) == 0
 
+        # k <= floor(a / c) is a >= k*c: a lower bound asked of a quotient alone becomes one on the dividend
+        if len(g[1]) == 1 and g[1][0][1] < 0 and g[1][0][0] in getattr(an, "quotients", {}):
+            a, c = an.quotients[g[1][0][0]]
+            k = -((-g[0]) // (-g[1][0][1]))        # ceil(const / |coef|)
+            return self._lift(an, st, lin_add(lin_const(k * c), a, -1))
         for s, c in g[1]:
             base = s[4:-1] if s.startswith("len(") else s
             m = re.match(r"^E:cast<(\w+)>\(0\+1\*(_\d+)\)$", s)
@@ -749,7 +775,10 @@ class Inventory:
         ops = ",".join(self.prov(an, o, 0) for o in s.ops)
         if s.kind == "precond":
             o = s.via
-            return "precond:%s<-%s(%s)" % (_short(s.detail), (o.desc or o.detail) if isinstance(o, Site) else o, ops)
+            od = (o.desc or o.detail) if isinstance(o, Site) else o
+            if isinstance(o, Site) and o.kind == "panic" and not o.desc and not PANIC_FNS.search(o.detail or ""):
+                od = "%s>core::panicking::panic_fmt" % o.detail     # a panic raised through a function that never returns
+            return "precond:%s<-%s(%s)" % (_short(s.detail), od, ops)
         d = s.detail if s.kind in ("assert", "ubcheck") else "%s:%s" % (s.kind, _short(s.detail))
         return self._name_captures(s.fn, "%s(%s)" % (d, ops))
 
